@@ -199,9 +199,9 @@ func showMds(ms []md) string {
 // and query times AT those instants (and just before/after) are exercised: nothing in the property
 // depends on where on the absolute timeline a mode sits.
 var bases = map[string]time.Time{
-	"":     time.Unix(1_700_000_000, 0).UTC(),
-	"zero": {},                      // time.Time{}: IsZero() is true exactly here
-	"unix": time.Unix(0, 0).UTC(), // timestamppb.Timestamp{} (seconds 0, nanos 0)
+	"":       time.Unix(1_700_000_000, 0).UTC(),
+	"zero":   {},                    // time.Time{}: IsZero() is true exactly here
+	"unix":   time.Unix(0, 0).UTC(), // timestamppb.Timestamp{} (seconds 0, nanos 0)
 	"denorm": time.Unix(1_700_000_000, 0).UTC(),
 }
 
@@ -1672,6 +1672,7 @@ func runSeg(f lib.Flags, res *lib.Result, drv *lib.Driver) {
 	runSegEdges(f, res, drv, mon)
 	runModeFar(f, res, drv, mon)
 	runSegFloat(f, res, drv, mon)
+	runFloatRounding(f, res, drv)
 }
 
 // ---- float32 tier ------------------------------------------------------------------------------
@@ -1737,7 +1738,7 @@ func runSegFloat(f lib.Flags, res *lib.Result, drv *lib.Driver, mon *lib.Monitor
 	k := res.Tie("segments-float32", "K1",
 		"fractional float32 magnitudes, represented exactly by integer numerators over 2^3 (family 'eighths': k/8, |k|<=1024) or 2^40 (family 'decimals': float32(k/10), float32(k/100)); "+
 			"the model computes on the numerators, i.e. in exact rational arithmetic; Sum (1-3 lists), SumMagnitude, Max, Shift, MagnitudeAt. A case is compared (and monitored) only if it is float-safe: "+
-			"by an order-free criterion every partial sum of its edges is exactly representable in float32; the other cases are counted and MEASURED (does the real result equal the exact one; "+
+			"by an order-free criterion every partial sum of its edges is exactly representable in float32; an unsafe SumMagnitude, and an unsafe Sum whose edge times are all distinct, is compared with the model's float32 rendering (sumf/summagf) instead; the other cases are counted and MEASURED (does the real result equal the exact one; "+
 			"does Sum change when the argument lists are passed in reverse order); distinct = distinct request line; non-trivial = every compared case")
 	r := lib.NewRand(f.Seed + 3232)
 	n := f.N(20000, 300000)
@@ -1793,6 +1794,18 @@ func runSegFloat(f lib.Flags, res *lib.Result, drv *lib.Driver, mon *lib.Monitor
 				mon.Eval(lines[i], true, nil)
 				mon.Count("float32/" + c.Op)
 				c.safeMonitor(mon, o)
+				continue
+			}
+			if c.Op == "summag" || (c.Op == "sum" && edgeTimesDistinct(lists[i])) {
+				// rounding happens, but in an order the code fixes (list order / distinct edge times): compare
+				// with the model's float32 rendering (rnd24 works on numerators over any power-of-two denominator)
+				fl, err := drv.Ask(c.Op + "f " + c.L)
+				if err != nil {
+					k.Fail(err)
+					return
+				}
+				k.Count(famName + "/float-unsafe but order-determined (compared with the float32 model)")
+				k.Record(c.Op+"f "+c.L, true, c, fl, o.text)
 				continue
 			}
 			k.Count(famName + "/float-unsafe(measured, not compared)")
@@ -1881,6 +1894,180 @@ func runModeFar(f lib.Flags, res *lib.Result, drv *lib.Driver, mon *lib.Monitor)
 		cases[i] = randFarCase(r)
 	}
 	compareSeg(k, mon, drv, cases)
+}
+
+// ---- float32 rounding tier ---------------------------------------------------------------------
+
+// f32int: a random integer that is exactly a float32 (24 significant bits times a power of two).
+func f32int(r *rand.Rand) int64 {
+	var m int64
+	switch r.Intn(4) {
+	case 0:
+		m = int64(r.Intn(1 << 24))
+	case 1:
+		m = 1<<24 - 1 - int64(r.Intn(4))
+	case 2:
+		m = 1<<23 + int64(r.Intn(4))
+	default:
+		m = int64(r.Intn(64))
+	}
+	v := m << uint(r.Intn(30))
+	if r.Intn(2) == 0 {
+		v = -v
+	}
+	if float64(float32(v)) != float64(v) {
+		panic("f32int: not a float32")
+	}
+	return v
+}
+
+// edgeTimesDistinct: no two rising/falling edges of the lists fall on the same instant, so the order in
+// which sort.Slice leaves equal-time edges cannot influence Sum.
+func edgeTimesDistinct(ls [][]sg) bool {
+	seen := map[int64]bool{}
+	for _, l := range ls {
+		var cur int64
+		for _, s := range l {
+			if s.mag != 0 {
+				if seen[cur] {
+					return false
+				}
+				seen[cur] = true
+			}
+			if s.inf {
+				break
+			}
+			cur += s.len
+			if s.mag != 0 {
+				if seen[cur] {
+					return false
+				}
+				seen[cur] = true
+			}
+		}
+	}
+	return true
+}
+
+// randGappedLists: 1-3 lists of float32-integer magnitudes separated by idle gaps, retried until all edge
+// times differ.
+func randGappedLists(r *rand.Rand) [][]sg {
+	for {
+		n := 1 + r.Intn(3)
+		ls := make([][]sg, n)
+		for i := range ls {
+			k := 1 + r.Intn(3)
+			var l []sg
+			for j := 0; j < k; j++ {
+				l = append(l, sg{mag: 0, len: int64(1 + r.Intn(9))}, sg{mag: f32int(r), len: int64(1 + r.Intn(9))})
+			}
+			if r.Intn(3) == 0 {
+				l = append(l, sg{mag: 0, len: int64(1 + r.Intn(9))}, sg{mag: f32int(r), inf: true})
+			}
+			ls[i] = l
+		}
+		if edgeTimesDistinct(ls) {
+			return ls
+		}
+	}
+}
+
+func runFloatRounding(f lib.Flags, res *lib.Result, drv *lib.Driver) {
+	k := res.Tie("float32-rounding", "K1",
+		"the model of float32 addition (round to 24 significant bits, ties to even) against Go's: f32add on pairs of integers that are float32 values (mantissas random / all-ones / just above 2^23 / tiny, "+
+			"exponents 0..29, both signs, plus directed half-way and carry cases); SumMagnitude in float32 on lists of 2-6 such magnitudes; Sum in float32 on 1-3 lists of such magnitudes separated by idle gaps "+
+			"with all edge times distinct (so the unstable sort cannot matter): the real result must equal the model's float rendering bit for bit; counted: how many results differ from the exact sum; "+
+			"distinct = distinct request line; non-trivial = every case")
+	r := lib.NewRand(f.Seed + 3232323)
+	n := f.N(12000, 200000)
+	itoa := func(x int64) string { return strconv.FormatInt(x, 10) }
+	var cases []scase
+	var exact []string // the request computing the exact (unrounded) answer, for the distribution
+	// directed: half-way cases and carries around 2^24
+	for _, a := range []int64{1 << 24, 1<<24 - 1, 1<<24 + 2, 1 << 25, 1<<25 - 2, -(1 << 24), 3 << 23} {
+		for _, b := range []int64{1, -1, 2, 3, -3, 1 << 23, 1<<24 - 1, -(1<<24 - 1)} {
+			cases = append(cases, scase{"f32add", itoa(a), itoa(b), ""})
+			exact = append(exact, "")
+		}
+	}
+	for i := 0; i < n; i++ {
+		switch r.Intn(4) {
+		case 0, 1:
+			a, b := f32int(r), f32int(r)
+			if r.Intn(4) == 0 { // b half an ulp of a, give or take
+				b = (int64(1) << uint(r.Intn(29))) + int64(r.Intn(3)) - 1
+				if float64(float32(b)) != float64(b) {
+					b = 1
+				}
+			}
+			cases = append(cases, scase{"f32add", itoa(a), itoa(b), ""})
+			exact = append(exact, "")
+		case 2:
+			m := 2 + r.Intn(5)
+			l := make([]sg, m)
+			for j := range l {
+				l[j] = sg{mag: f32int(r), len: int64(r.Intn(4))}
+			}
+			cases = append(cases, scase{"summagf", "", showSgs(l), ""})
+			exact = append(exact, "summag "+showSgs(l))
+		default:
+			ls := randGappedLists(r)
+			cases = append(cases, scase{"sumf", "", showSgLists(ls), ""})
+			exact = append(exact, "sum "+showSgLists(ls))
+		}
+	}
+	lines := make([]string, len(cases))
+	for i, c := range cases {
+		lines[i] = c.line()
+	}
+	model, err := drv.Batch(lines)
+	if err != nil {
+		k.Fail(err)
+		return
+	}
+	var exLines []string
+	var exIdx []int
+	for i, e := range exact {
+		if e != "" {
+			exLines = append(exLines, e)
+			exIdx = append(exIdx, i)
+		}
+	}
+	exModel, err := drv.Batch(exLines)
+	if err != nil {
+		k.Fail(err)
+		return
+	}
+	exactOf := map[int]string{}
+	for j, i := range exIdx {
+		exactOf[i] = exModel[j]
+	}
+	for i, c := range cases {
+		var code string
+		panicked, msg := lib.Catch(func() {
+			switch c.Op {
+			case "f32add":
+				s := float32(mustInt(c.D)) + float32(mustInt(c.L))
+				code = showMag(s)
+			case "summagf":
+				code = scase{"summag", "", c.L, ""}.runCode().text
+			case "sumf":
+				code = scase{"sum", "", c.L, ""}.runCode().text
+			}
+		})
+		if panicked {
+			code = "panic:" + msg
+		}
+		k.Count(c.Op)
+		if e, ok := exactOf[i]; ok {
+			if e == code {
+				k.Count(c.Op + "/equals the exact result")
+			} else {
+				k.Count(c.Op + "/rounded (differs from the exact result)")
+			}
+		}
+		k.Record(lines[i], true, c, model[i], code)
+	}
 }
 
 func runSegEdges(f lib.Flags, res *lib.Result, drv *lib.Driver, mon *lib.Monitor) {
